@@ -2,7 +2,6 @@ package main
 
 import (
 	"go/ast"
-	"go/constant"
 	"go/token"
 	"go/types"
 )
@@ -282,23 +281,11 @@ func runC12(c *Ctx) {
 			return true
 		})
 		c.Check(la, "last=latest-activity", "'last' is the participant's latest recorded activity", c.P.Pos(rd.Decl.Pos()), "")
-		k := c.Const("actor", "passivationTouchInterval")
-		v, _ := constant.Int64Val(constant.ToInt(k.Val()))
-		c.Check(v == 100_000_000, "touch-interval=100ms", "the activity-coalescing slack is the documented 100ms", c.P.Pos(k.Pos()), "constant value changed")
 		ma := c.Func("actor", "PID.markActivity")
 		mf := c.NewFlow(ma)
 		store := mf.CallOnField(c.Field("actor", "PID", "latestReceiveTimeNano"), "Store")
 		w := mf.ExitReachable(nil, store, nil, nil)
 		c.Check(w == nil, "markActivity/records-always", "every handled message records its receive time (Touch may be coalesced, the timestamp is not)", c.P.Pos(ma.Decl.Pos()), mf.describe(w))
-		// interval comparison uses the constant
-		usesK := false
-		ast.Inspect(ma.Decl.Body, func(n ast.Node) bool {
-			if id, ok := n.(*ast.Ident); ok && ma.Info().Uses[id] == types.Object(k) {
-				usesK = true
-			}
-			return true
-		})
-		c.Check(usesK, "markActivity/uses-interval", "Touch is coalesced with passivationTouchInterval", c.P.Pos(ma.Decl.Pos()), "")
 		hr := c.Func("actor", "PID.handleReceived")
 		hf := c.NewFlow(hr)
 		behavior := c.Named("actor", "Behavior")
